@@ -167,7 +167,10 @@ func (p *Program) Func(rel, name string) *ssa.Function {
 	if sp == nil {
 		return nil
 	}
-	return sp.Func(name)
+	if fn := sp.Func(name); fn != nil {
+		return fn
+	}
+	return p.resolveRenamed(rel, "", name)
 }
 
 // Method looks up a method on *T or T declared in the package.
@@ -188,7 +191,7 @@ func (p *Program) Method(rel, typ, name string) *ssa.Function {
 			}
 		}
 	}
-	return nil
+	return p.resolveRenamed(rel, typ, name)
 }
 
 func (p *Program) Named(rel, typ string) *types.Named {
@@ -327,4 +330,24 @@ func (p *Program) IsRepoFunc(fn *ssa.Function) bool {
 	}
 	_, ok := p.SSA[pk.Pkg.Path()]
 	return ok
+}
+
+// methodByName: the method of that exact name, or nil (no shape fallback).
+func (p *Program) methodByName(rel, typ, name string) *ssa.Function {
+	sp := p.Pkg(rel)
+	if sp == nil {
+		return nil
+	}
+	tm := sp.Type(typ)
+	if tm == nil {
+		return nil
+	}
+	for _, t := range []types.Type{types.NewPointer(tm.Type()), tm.Type()} {
+		if sel := p.Prog.MethodSets.MethodSet(t).Lookup(sp.Pkg, name); sel != nil {
+			if fn := p.Prog.MethodValue(sel); fn != nil && fn.Blocks != nil {
+				return fn
+			}
+		}
+	}
+	return nil
 }
